@@ -507,6 +507,9 @@ def run_property(ctx):
                 lint_c13(ctx)
         if spec.get('lint') == 'c14':
             lint_c14(ctx)
+        if spec.get('srctab'):
+            from . import srctab
+            srctab.run(ctx)
         for s in spec['suites']:
             run_suite(ctx, s)
     except build.BuildError as e:
